@@ -152,6 +152,33 @@ class RandomShim:
 
     normalvariate = gauss
 
+    # numpy's legacy global generator, as far as artap's own modules bind it by name (utils: `from numpy.random import normal`)
+    def np_normal(self, loc=0.0, scale=1.0, size=None):
+        if size is not None or hasattr(loc, "__len__") or hasattr(scale, "__len__"):
+            import numpy as np
+            shape = np.broadcast(np.asarray(loc), np.asarray(scale)).shape if size is None else size
+            z = np.array([self.base.gauss(0.0, 1.0) for _ in range(int(np.prod(shape)) if shape != () else 1)]).reshape(shape)
+            self.draws += z.size
+            return loc + scale * z
+        self.draws += 1
+        if self.draws > self.max_draws:
+            raise DrawBudgetExceeded("more than %d random draws in one execution" % self.max_draws)
+        b = loc + scale * self.base.gauss(0.0, 1.0)
+        ctx = self.ctx
+        if ctx is None or not self.extreme_values or getattr(ctx, "force_unit", None) is not None:
+            return b
+        # a normal variate is unbounded: the environment may answer four standard deviations out on either side
+        c = ctx.choose("value", 3, self.price_value, "numpy.normal")
+        return (b, loc - 4.0 * scale, loc + 4.0 * scale)[c]
+
+    def np_uniform(self, low=0.0, high=1.0, size=None):
+        if size is not None:
+            import numpy as np
+            n = int(np.prod(size))
+            self.draws += n
+            return low + (high - low) * np.array([self.base.random() for _ in range(n)]).reshape(size)
+        return low + (high - low) * self._unit()
+
     def seed(self, *a):
         pass
 
@@ -166,6 +193,11 @@ _installed = set()
 def install():
     """Rebind the random sources of every loaded artap module to SHIM (idempotent)."""
     inst = _random._inst
+    try:
+        import numpy.random as _npr
+        np_inst = _npr.mtrand._rand
+    except Exception:
+        np_inst = None
     for name, mod in list(sys.modules.items()):
         if mod is None or not (name == "artap" or name.startswith("artap.")):
             continue
@@ -177,6 +209,8 @@ def install():
                 setattr(mod, gname, SHIM)
             elif getattr(val, "__self__", None) is inst and hasattr(SHIM, getattr(val, "__name__", "")):
                 setattr(mod, gname, getattr(SHIM, val.__name__))
+            elif np_inst is not None and getattr(val, "__self__", None) is np_inst and hasattr(SHIM, "np_" + getattr(val, "__name__", "")):
+                setattr(mod, gname, getattr(SHIM, "np_" + val.__name__))
     return SHIM
 
 
